@@ -1037,12 +1037,16 @@ class eigenbasis_of(basis_context_manager):
     def __init__(self, operator):
         super().__init__()
         self.op = operator
-        self.manager.store_current_basis_operator(self.op)
         
         
     def __enter__(self):
 
         self.manager._in_eigenbasis_of_context = True
+
+        # the operator defining the basis we are leaving is remembered so
+        # that it can be put back on exit (contexts can be nested)
+        self._op_outside = self.manager.current_basis_operator
+        self.manager.store_current_basis_operator(self.op)
         
         if self.manager.warn_about_basis_change:
             print("\nQr >>> Entering basis context manager ...")
@@ -1103,7 +1107,7 @@ class eigenbasis_of(basis_context_manager):
                 if op not in ops_above:
                     self.manager.register_with_basis(nb,op)
             
-        self.manager.remove_current_basis_operator()
+        self.manager.store_current_basis_operator(self._op_outside)
             
         del self.manager.basis_registered[bb]
 
